@@ -54,6 +54,10 @@ CHECKS = {
    text="Proved in Coq for all typed simple trees (ten Go integer kinds, uint64 wrap made explicit) and both OmitNil settings: Simplify after Generify equals Decompose; on JSON-like data with nulls kept Decompose/Dup/Alter is the identity, hence the Generify/Simplify trip is the identity; Generify after Simplify gives the generic tree back; the writers see the same tree in a generic value and in its Simplify; Generify never leaves the int64 range. Deep copy is proved on a model of containers with identity (Alt/Store.v): a copy allocates a fresh identity for every container, denotes the same value, and an in-place mutation of any container of either tree leaves the other unchanged. Tied to the code on every run: alt.Generify/GenAlter/Decompose/Dup/Alter, Node.Simplify/Alter against the extracted functions on typed trees x OmitNil; writer text of gen tree vs Simplify for oj/sen/pretty; gen.Parser vs Generify(oj.Parser); the storage identities of every container of original and copy are observed (reflect pointers) and three in-place mutations are applied to every container of the copy and of the original for five copying operations.",
    technique="Coq proofs of the conversion laws and of copy independence on a store model + correspondence of the kind switches and observed container identities / mutate-after-copy experiments",
    design='6/C18'),
+ 'C20': dict(
+   text="Asm/Eval.v is an executable Coq model of the plan evaluator for 37 functions (asm, set, setall, del, delall, get, getall, int64 arithmetic with wrap, string sum, equality, the order tests with their short-circuit, and/or/not, cond, list, quote, nth, size, reverse, append, include, the type predicates, int, each with a local map), total by construction; it abstains on floats, on paths it cannot update functionally and where the implementation's sharing of stored values could matter (tracked by a taint flag and a cycle test). Proved in Coq for every plan, root and state (induction over the plan with one loop invariant per evaluation loop): if every set/setall/del/delall names a path whose first member is not src, the member src of the root is the same after any completed evaluation (Frame.safe_deepk, plan_keeps_src). Decided on the real code per seeded plan x root: Execute neither panics nor hangs; the result root equals the model's where the model decides; a second plan from the same description and a second Execute of the same Plan give the same result; Plan.Simplify() and Plan.String() rebuild a plan with the same behaviour; $.src is unchanged unless an updating function names a location under it. Four genuine findings are recorded and attributed per case by re-running a defused plan.",
+   technique="Coq model of the evaluator with a proved frame theorem for $.src + model/implementation correspondence and determinism / print-rebuild laws on seeded plans",
+   design='6/C20'),
  'C19': dict(
    text="diff, jeq and jmatch (Alt/Diff.v) specify alt.Diff, Compare and Match on JSON-like trees (numbers by value across int/float, null equal to an absent member, ignore paths with wildcards applied per key and per index, a shorter second array reported once). Proved for all pairs of trees: Diff without ignore paths is empty exactly when the trees are equal in that sense, and Compare is nil exactly when Diff is empty. alt.Diff (simple and gen data, compared as sets of paths), alt.Compare and alt.Match are compared with the extracted functions on directed pairs (ignore paths at different indexes, wildcards) and seeded trees with 0-3 perturbations and 0-2 ignore paths.",
    technique="Coq proof that the Diff specification is empty iff trees are equal + correspondence of Diff/Compare/Match against the extracted specification",
